@@ -370,10 +370,11 @@ def build(world, ref, topo, eng, cfg):
                 if ref is not None:
                     ref.add_sim(it, path, typ)
     rec(topo['tree'], ['R'])
-    for sid, t in (topo.get('init') or {}).items():
-        world.set_initial_event(sid, t)
-        if ref is not None:
-            ref.initial_event(sid, t)
+    for sid, ts in (topo.get('init') or {}).items():
+        for t in (ts if isinstance(ts, (list, tuple)) else [ts]):     # one or several initial events per simulator
+            world.set_initial_event(sid, t)
+            if ref is not None:
+                ref.initial_event(sid, t)
     for i, e in enumerate(topo['edges']):
         src, dst = e['src'], e['dst']
         sa, da = e['sa'], e['da']
